@@ -221,6 +221,33 @@ theorem sle_antisymm : ∀ a b, sle a b = true → sle b a = true → a = b := b
   simp only [sle, decide_eq_true_eq] at *
   exact String.le_antisymm h1 h2
 
+/-! ### the comparator of the repaired `MockFS.ReadDir` is a total order on (filename, path) -/
+
+theorem entLe_total (a b : String × String) : (entLe a b || entLe b a) = true := by
+  have t1 := slt_tri a.1 b.1
+  have t2 := String.le_total a.2 b.2
+  have ir := String.lt_irrefl
+  unfold entLe sle
+  grind
+
+theorem entLe_trans (a b c : String × String) (h1 : entLe a b = true) (h2 : entLe b c = true) :
+    entLe a c = true := by
+  have tr := @String.lt_trans
+  have ir := String.lt_irrefl
+  have lt := @String.le_trans a.2 b.2 c.2
+  unfold entLe sle at *
+  grind
+
+theorem entLe_antisymm (a b : String × String) (h1 : entLe a b = true) (h2 : entLe b a = true) :
+    a = b := by
+  have tr := @String.lt_trans
+  have ir := String.lt_irrefl
+  have as := @String.le_antisymm a.2 b.2
+  have : a.1 = b.1 ∧ a.2 = b.2 := by
+    unfold entLe sle at *
+    grind
+  cases a; cases b; simp_all
+
 /-! ### folds of commuting steps -/
 
 /-- a left fold whose steps commute on related elements gives the same result for every
